@@ -217,12 +217,15 @@ def layout_stage(prop, tier, name):
            "C12": {"union", "size", "layout", "frees", "panicked", "addr", "heap", "width"},
            "C01": {"frees", "layout", "count", "panicked", "contents", "heap"},
            "C06": {"contents", "panicked", "frees"},
+           "C08": {"count"},
            "C10": {"thin", "addr", "heap", "size", "layout", "frees", "panicked", "contents"}}[prop]
     seen = set()
     for cat, key, msg, x in errs:
         if cat not in REL:
             continue
         if prop == "C12" and x["family"] != "union":
+            continue
+        if prop == "C08" and x["family"] != "arcswap":
             continue
         if prop == "C10" and not (x["family"] == "hs" and x.get("ctor", "").startswith(("thin", "fat_into"))):
             continue
